@@ -54,6 +54,30 @@ def gen_interval(rng, size, hints=True):
     return iv
 
 
+def grid_interval(rng, size):
+    bits = size * 8
+    start = rng.randrange(-6, 7)
+    stride = rng.randrange(1, 13)
+    end = start + stride * rng.choice([1, 2, 3, 5])
+    return {"size": size, "start": "%x" % (start & M(bits)), "end": "%x" % (end & M(bits)), "stride": stride, "lower": None, "upper": None, "delay": 0}
+
+
+def touching(rng, a):
+    """An interval that starts where `a` ends (same width), with its own stride."""
+    bits = a["size"] * 8
+    hi = (1 << (bits - 1)) - 1
+    start = int(a["end"], 16)
+    start = start - (1 << bits) if start >> (bits - 1) else start
+    stride = rng.choice([1, 1, 2, 3, 8, a["stride"] or 1])
+    room = (hi - start) // stride
+    if room <= 0:
+        stride, end = 0, start
+    else:
+        end = start + stride * rng.choice([1, 2, min(room, 7), rng.randrange(1, min(room, 1000) + 1)])
+        end = min(end, start + room * stride)
+    return {"size": a["size"], "start": "%x" % (start & M(bits)), "end": "%x" % (end & M(bits)), "stride": stride, "lower": None, "upper": None, "delay": 0}
+
+
 def widening_pair(rng, size):
     """Two intervals as they meet at a loop head: b extends a by a few strides, small delay, hints close to the bounds
     (not necessarily on the stride), so that the merge actually widens."""
@@ -458,7 +482,19 @@ class RV:
                 bound = rng.choice([s, e, (s - 1) & M(bits), (e + 1) & M(bits), (s + 1) & M(bits), (e - 1) & M(bits), 0, M(bits), 1 << (bits - 1), M(bits - 1), rng.randrange(1 << bits)])
                 cases.append({"op": "iv_refine", "kind": kind, "a": a, "bound": "%x" % bound})
             elif r < 0.7:
-                cases.append({"op": "iv_intersect", "a": gen_interval(rng, size), "b": gen_interval(rng, size)})
+                if rng.random() < 0.15:
+                    size = 16  # the implementation switches to a stride-free computation above 8 bytes
+                    bits = 128
+                a, b = gen_interval(rng, size), gen_interval(rng, size)
+                if size <= 8 and rng.random() < 0.4:
+                    # small grid around zero: bases of both signs, all small stride pairs (residue-class arithmetic)
+                    a, b = grid_interval(rng, size), grid_interval(rng, size)
+                elif rng.random() < 0.3:
+                    # touching intervals: the intersection is the single shared bound
+                    b = touching(rng, a)
+                    if rng.random() < 0.5:
+                        a, b = b, a
+                cases.append({"op": "iv_intersect", "a": a, "b": b})
             elif r < 0.9:
                 a = gen_data(rng, size)
                 bound = rng.choice([0, 1, M(bits), 1 << (bits - 1), M(bits - 1), rng.randrange(1 << bits)] + ([int(a["abs"]["start"], 16), int(a["abs"]["end"], 16)] if a["abs"] else []))
